@@ -517,6 +517,18 @@ func runGenForced(t *testing.T, g genCfg, x *xplore.Ctx, forceWord, forceExt int
 			f.Path = p
 			ch = append(ch, f)
 		}
+		// ... and a child described by a CIDv0 root (a sub-directory named the
+		// way go-ipfs names dag-pb nodes by default): the stored link is that CID
+		{
+			leaf := testutil.GenerateFile(t, ls, rnd, 5)
+			leaf.Path = "inner"
+			sub := testutil.BuildDirectory(t, ls, []testutil.DirEntry{leaf}, false)
+			if sub.Root.Prefix().Codec == cid.DagProtobuf && sub.Root.Prefix().MhType == 0x12 && sub.Root.Prefix().MhLength == 32 {
+				sub.Root = cid.NewCidV0(sub.Root.Hash())
+			}
+			sub.Path = "v0dir"
+			ch = append(ch, sub)
+		}
 		de = testutil.BuildDirectory(t, ls, ch, g.Sharded)
 	case "WrapContent":
 		f := testutil.GenerateFile(t, ls, rnd, 9)
